@@ -14,7 +14,8 @@ RULE = ("Gfa states from generated valid documents (<= 15 lines, asymmetric CIGA
         "(written text of the Gfa and of every line, structural dump of every field value, ordered back-reference "
         "lists, namespace lists) must be unchanged, arguments included; the same call repeated must return an "
         "equal normalised result. non-trivial = the sequence has >= 3 distinct call kinds and >= 1 call on an "
-        "alignment or link whose CIGAR has an I or D; distinct by hash")
+        "alignment or link whose CIGAR has an I or D, or >= 1 successful resolution of a group (captured path / "
+        "induced set); distinct by hash")
 ASSUMPTIONS = [
     "conversions (to_gfa1/to_gfa2) are not in the statement (they assign ID tags by design) and are excluded",
     "the fingerprint is taken after one warm-up read of every field: at vlevel 0 the first access decodes lazily parsed fields and may re-spell them, which the property names as intended; at vlevel 0 texts are compared through the canonicaliser, at vlevel >= 1 literally",
@@ -215,6 +216,7 @@ def prop(case):
         return {"nt": False}
     kinds = set()
     touched_id = False
+    touched_group = False
     fp = fingerprint(g, canon=canon)
     for step, (name, i, j, k) in enumerate(case["calls"]):
         pred, fn = CAT[name]
@@ -232,6 +234,9 @@ def prop(case):
             except Exception as e:
                 results.append(norm(e))
         kinds.add(name)
+        if name in ("captured_path", "captured_parts", "induced_set", "induced_parts") and not (
+                isinstance(results[0], tuple) and results[0] and results[0][0] == "raised"):
+            touched_group = True
         a = _aln(l)
         if isinstance(a, gfapy.CIGAR) and any(op.code in "ID" for op in a) and (name.startswith(("aln", "link", "edge")) or name == "eq"):
             touched_id = True
@@ -242,7 +247,8 @@ def prop(case):
         if repr(results[0]) != repr(results[1]):
             raise Violation("unrepeatable", "call %d %s on %r gave %r then %r\n-- document --\n%s" % (
                 step, name, O.line_text(l), results[0], results[1], "\n".join(lines_t)), name)
-    return {"nt": len(kinds) >= 3 and touched_id, "version": version, "vlevel": vlevel}
+    return {"nt": len(kinds) >= 3 and (touched_id or touched_group), "version": version, "vlevel": vlevel,
+            "resolved_group": touched_group}
 
 
 @st.composite
